@@ -20,6 +20,8 @@ def check(run):
         ec.run_family(run, 'C04-pairs', 'Q_C04pairs', 'R_w2', recsB='R_w2N', maxA=2, maxB=2, hdrmodes=(False, True))
         ec.run_family(run, 'C04-order-distinct-top', 'Q_C02joinok', 'R_2x2', recsB='R_2x2', maxA=2, maxB=3)
         ec.run_family(run, 'C04-update', 'Q_C05join', 'R_w2N', recsB='R_w2', maxA=2, maxB=3)
+    ec.run_family(run, 'C04-none-keys', 'Q_C04none', 'R_2x2N', recsB='R_2x2N', maxA=1 if quick else 2, maxB=2)
+    ec.run_family(run, 'C04-three-keys', 'Q_C04k3', 'R_w3', recsB='R_w3', maxA=1 if quick else 2, maxB=2)
     if not quick:
         ec.run_family(run, 'C04-cross-product', 'Q_MIX', 'R_w2', recsB='R_w2', maxA=3, maxB=4, hdrmodes=(False, True), simulate=8000)
     run.exhaustive = True
